@@ -31,7 +31,7 @@ def gen_world(rng, i, tier):
         ents = []
         for s in [None] + rng.subset(SECS, 0, 3):
             for k in rng.subset([k for k in KEYS if " " not in k], 0 if s is None else 1, 4):
-                ents.append([s, k, "p%d" % len(ents)])
+                ents.append([s, k, "p%d" % len(ents) if rng.chance(0.85) else None])     # None: "key=" - an entry without text
                 if rng.chance(0.15):
                     ents.append([s, k, "dup%d" % len(ents)])      # duplicate key: lookups see the first
         w["file"] = ents
@@ -136,7 +136,7 @@ def build_plans(world):
     elif c == "newOpts":
         ops.append({"op": "newOpts", "o": 0, "options": None})
     else:
-        tree.append({"t": "f", "p": "$ROOT/in.conf", "c": render_plain([tuple(e) for e in world.get("file", [])])})
+        tree.append({"t": "f", "p": "$ROOT/in.conf", "c": render_plain([(e[0], e[1], "" if e[2] is None else e[2]) for e in world.get("file", [])])})
         ops.append({"op": "readFile", "o": 0, "path": "$ROOT/in.conf", "delim": "=", "comment": "#"})
     for a in world["ops"]:
         ops.append(dict(to_exec(a), tag="h"))
@@ -170,6 +170,7 @@ def check(world, plans, results):
         v.fail("ctor", "constructor %s failed with %r" % (world["ctor"], rs[0]["rc"]))
         return v
     m = OrderedMap(world.get("file", []) if world["ctor"] == "parsed" else [])
+    was_set = set()
     base_len = len(m.entries)
     flags = {"overwrite": False, "miss": False, "growth": False}
     ri = 1
@@ -216,6 +217,7 @@ def check(world, plans, results):
                 if not okv:
                     v.fail("set:typed", "%s: the matching typed getter returns %r (stored text %r) right after the set" % (where, typed, text))
             m.set(g, k, text)
+            was_set.add(id(m.find(g, k)))
             if len(m.entries) > max(8, base_len):
                 flags["growth"] = True
         elif o == "get":
@@ -226,6 +228,9 @@ def check(world, plans, results):
                     v.fail("get:miss", "%s: lookup of an absent key returned %r (value %r) instead of key-not-found" % (where, r["rc"], r.get("v")))
             elif r["rc"] != 0 or nz(r.get("v")) != nz(e[2]):
                 v.fail("get:value", "%s: expected %r, got rc=%r value=%r" % (where, e[2], r["rc"], r.get("v")))
+            elif (id(e) in was_set) and r.get("v") is None:
+                # an entry read from a file may have no text at all; after a set it has exactly the text set
+                v.fail("get:null-after-set", "%s: the key was set to %r but the getter hands back a NULL pointer" % (where, e[2]))
         elif o == "getdef":
             ty, g, k, d = a[1], a[2], a[3], a[4]
             e = m.find(g, k)
